@@ -29,6 +29,9 @@ func init() {
 			{ID: "C17.6", Desc: "an entry is handed out only for the key it was stored under (a file moved between keys is a miss)", Run: func(c *Ctx) { ruleEntryBelongsToKey(c, "C17.6") }, MinSites: 1},
 			{ID: "C17.7", Desc: "the DSN reader looks at every value of the encrypt parameter", Run: func(c *Ctx) { ruleDSNAllEncryptValues(c, "C17.7") }, MinSites: 1},
 			{ID: "C17.8", Desc: "every Set encrypts and writes anew (no success return before the write; equal values give different ciphertexts)", Run: func(c *Ctx) { ruleC15_1(c); renameRule(c, "C15.1", "C17.8") }, MinSites: 1},
+			{ID: "C17.9", Desc: "the DSN's key wins over the environment's", Run: func(c *Ctx) { ruleDSNKeyFirst(c, "C17.9") }, MinSites: 1},
+			{ID: "C17.10", Desc: "the DSN's query reaches the driver unparsed (no lossy URL.Query() on the way)", Run: func(c *Ctx) { ruleNoLossyQueryOnDSNPath(c, "C17.10") }, MinSites: 1},
+			{ID: "C17.11", Desc: "an index moved between keys of the store is not followed to another URI's entries", Run: func(c *Ctx) { ruleIndexRefsBelongToKey(c, "C17.11") }, MinSites: 1},
 		},
 	})
 }
